@@ -31,14 +31,16 @@ import (
 const vrtPath = "github.com/biogo/biogo/verifrt/vrt"
 
 type inst struct {
-	fset   *token.FileSet
-	info   *types.Info
-	pkg    *types.Package
-	n      int
-	race   bool
-	unin   []string
-	counts map[string]int
-	loops  []*loopInfo // enclosing for / range statements of the statement being rewritten (reset inside function literals)
+	fset     *token.FileSet
+	info     *types.Info
+	pkg      *types.Package
+	n        int
+	race     bool
+	unin     []string
+	counts   map[string]int
+	hookPos  token.Pos             // position of the statement whose race hooks are being built
+	captured map[types.Object]bool // local variables some function literal refers to: shared between threads like fields are
+	loops    []*loopInfo           // enclosing for / range statements of the statement being rewritten (reset inside function literals)
 }
 
 // loopInfo is one enclosing loop; tok is set once a go statement in it has been
@@ -90,6 +92,19 @@ func (in *inst) symSpawn(s *ast.GoStmt) *loopInfo {
 		return nil
 	}
 	return l
+}
+
+func hasCall(e ast.Expr) bool {
+	found := false
+	if e != nil {
+		ast.Inspect(e, func(n ast.Node) bool {
+			if _, ok := n.(*ast.CallExpr); ok {
+				found = true
+			}
+			return !found
+		})
+	}
+	return found
 }
 
 // withLoop rewrites a loop body with the loop pushed on the stack and returns
@@ -499,6 +514,19 @@ func (in *inst) stmt(s ast.Stmt) []ast.Stmt {
 		}
 		pre := in.pre(s.Pos(), []ast.Stmt{s.Init}, nil)
 		pre = append(pre, in.withLoop(s, s.Body)...)
+		// the accesses of the post statement (a loop counter a goroutine's closure refers to) are recorded
+		// where the next iteration starts: same thread, nothing but the condition in between
+		if s.Post != nil && !hasCall(s.Cond) {
+			if hooks := in.raceHooks(s.Post.Pos(), []ast.Stmt{s.Post}, []ast.Expr{s.Cond}); len(hooks) > 0 {
+				flag := ast.NewIdent(in.tmp("It"))
+				pre = append(pre, &ast.AssignStmt{Lhs: []ast.Expr{flag}, Tok: token.DEFINE, Rhs: []ast.Expr{ast.NewIdent("false")}})
+				head := []ast.Stmt{
+					&ast.IfStmt{Cond: flag, Body: &ast.BlockStmt{List: hooks}},
+					&ast.AssignStmt{Lhs: []ast.Expr{flag}, Tok: token.ASSIGN, Rhs: []ast.Expr{ast.NewIdent("true")}},
+				}
+				s.Body.List = append(head, s.Body.List...)
+			}
+		}
 		return append(pre, s)
 	case *ast.RangeStmt:
 		in.funcLits(s.X)
@@ -688,6 +716,35 @@ func (in *inst) goStmt(s *ast.GoStmt) []ast.Stmt {
 	return []ast.Stmt{&ast.BlockStmt{List: append(pre, gs)}}
 }
 
+var lineTables = map[string][]int32{}
+
+// stripLineDirectives removes the //line directives from printed source and returns, for every line of
+// the result (1-based, entry 0 unused), the line of the original file the directives assigned to it.
+func stripLineDirectives(src []byte) ([]byte, []int32) {
+	var out bytes.Buffer
+	table := []int32{0}
+	cur := int32(1)
+	for _, ln := range strings.SplitAfter(string(src), "\n") {
+		if ln == "" {
+			continue
+		}
+		t := strings.TrimSpace(ln)
+		if strings.HasPrefix(t, "//line ") {
+			if i := strings.LastIndexByte(t, ':'); i >= 0 {
+				var n int
+				if _, err := fmt.Sscan(t[i+1:], &n); err == nil {
+					cur = int32(n)
+					continue
+				}
+			}
+		}
+		out.WriteString(ln)
+		table = append(table, cur)
+		cur++
+	}
+	return out.Bytes(), table
+}
+
 // fixImports adds the vrt import and drops imports that are no longer used.
 func fixImports(f *ast.File) {
 	used := map[string]bool{}
@@ -786,7 +843,26 @@ func main() {
 	if err != nil {
 		fmt.Fprintln(os.Stderr, "vinstr: type errors (continuing):", err)
 	}
-	in := &inst{fset: fset, info: info, pkg: pkg, race: *race, counts: map[string]int{}}
+	in := &inst{fset: fset, info: info, pkg: pkg, race: *race, counts: map[string]int{}, captured: map[types.Object]bool{}}
+	for _, f := range files {
+		ast.Inspect(f, func(n ast.Node) bool {
+			lit, ok := n.(*ast.FuncLit)
+			if !ok {
+				return true
+			}
+			ast.Inspect(lit.Body, func(m ast.Node) bool {
+				if id, ok := m.(*ast.Ident); ok {
+					if v, ok := info.Uses[id].(*types.Var); ok && !v.IsField() && pkg != nil && v.Parent() != pkg.Scope() && v.Parent() != types.Universe {
+						if p := v.Pos(); p < lit.Pos() || p >= lit.End() {
+							in.captured[v] = true
+						}
+					}
+				}
+				return true
+			})
+			return true
+		})
+	}
 	os.MkdirAll(*out, 0o755)
 	rep := map[string]string{}
 	for i, f := range files {
@@ -808,12 +884,44 @@ func main() {
 			fmt.Fprintln(os.Stderr, "vinstr:", err)
 			os.Exit(1)
 		}
+		// The //line directives the printer wrote are taken out again and turned into a line table that
+		// the runtime uses to report original positions: with a directive anywhere in a file the compiler
+		// (1.22 and later) gives its loops per-iteration variables whatever language version the module
+		// declares, and the instrumented code must mean what the original means.
+		clean, table := stripLineDirectives(buf.Bytes())
+		lineTables[filepath.Base(names[i])] = table
+		buf.Reset()
+		buf.Write(clean)
 		o := filepath.Join(*out, filepath.Base(names[i]))
 		if err := os.WriteFile(o, buf.Bytes(), 0o644); err != nil {
 			fmt.Fprintln(os.Stderr, "vinstr:", err)
 			os.Exit(1)
 		}
 		rep[names[i]] = o
+	}
+	if len(lineTables) > 0 && len(files) > 0 {
+		// an extra file of the package registers the tables with the runtime
+		var sb strings.Builder
+		fmt.Fprintf(&sb, "package %s\n\nimport \"%s\"\n\nfunc init() {\n", files[0].Name.Name, vrtPath)
+		fns := make([]string, 0, len(lineTables))
+		for fn := range lineTables {
+			fns = append(fns, fn)
+		}
+		sort.Strings(fns)
+		for _, fn := range fns {
+			fmt.Fprintf(&sb, "\tvrt.RegisterLines(%q, []int32{", fn)
+			for _, l := range lineTables[fn] {
+				fmt.Fprintf(&sb, "%d,", l)
+			}
+			sb.WriteString("})\n")
+		}
+		sb.WriteString("}\n")
+		o := filepath.Join(*out, "zz_vrt_lines.go")
+		if err := os.WriteFile(o, []byte(sb.String()), 0o644); err != nil {
+			fmt.Fprintln(os.Stderr, "vinstr:", err)
+			os.Exit(1)
+		}
+		rep[filepath.Join(filepath.Dir(names[0]), "zz_vrt_lines.go")] = o
 	}
 	data, _ := json.MarshalIndent(map[string]interface{}{"Replace": rep}, "", " ")
 	os.WriteFile(*overlay, data, 0o644)
